@@ -51,6 +51,18 @@ CLAIMED = {
         "reference evaluator ref/cnref.py is trusted (validated by seeded mutants)",
         "DESIGN.md section 4 C03",
     ),
+    "C04": (
+        "boundary monitor at solve_minor_model + LP shadow monitor (optimum's own assignment, tie-breaker-free score) + reference evaluator (position-decomposed optimum, branch-and-bound with phase)",
+        "Arguments, results and boundary-time scores of every solve_minor_model call are captured; the LP monitor gives "
+        "the optimum's own keep/add assignment and the objective coefficients, so the score is compared with the "
+        "tie-breaker part removed exactly. The reference evaluator scores the assignment (fit error, dropped/added/"
+        "novel-core penalties, read-phase disagreement) and searches for a lower admissible assignment (exact "
+        "position decomposition without phase, branch-and-bound with phase, node-capped); the statement's rules are "
+        "checked on every reported allele; noise-free pairs of catalogued minor alleles of all shipped genes must be "
+        "reproduced.",
+        "ref/minorref.py trusted (validated by seeded mutants); optimality claimed up to the tie-breaker mass of the witness",
+        "DESIGN.md section 4 C04",
+    ),
 }
 
 NOT_YET = {}
